@@ -368,6 +368,24 @@ func runC05(c *fw.Case) {
 	} else {
 		// every 10th case: the OUTPUT module is a block-index module (no walker: the request ends on the stores / jobs alone)
 		g, ok = buildGoldenOpt(c, c.R, 4, 30, c.Index%10 == 8)
+		// every 3rd case wants a store stage with SEVERAL stores: the storage scan and the squasher then deal with units in
+		// which one store has its snapshot and another only its partial
+		for attempt := 0; ok && c.Index%3 == 0 && c.Index%10 != 8 && attempt < 40; attempt++ {
+			multi := false
+			if pl, err := g.s.cl.PlanFor(g.req); err == nil {
+				for _, st := range pl.Graph.StagedUsedModules() {
+					if st.LastLayer().IsStoreLayer() && len(st.LastLayer()) >= 2 {
+						multi = true
+					}
+				}
+			}
+			if multi {
+				c.Count("cases_with_a_multi_store_stage", 1)
+				break
+			}
+			g.s.close()
+			g, ok = buildGoldenOpt(c, c.R, 4, 30, false)
+		}
 	}
 	if !ok {
 		c.Count("golden_generation_gave_up", 1)
